@@ -24,7 +24,7 @@ from ..ref import A, IllConditioned, Violation
 from ..util import Rng
 from . import bayes, common
 
-MODES = ("J1", "J2", "J3", "FD", "V")
+MODES = ("J1", "J2", "J3", "FD", "V", "J4")
 
 
 def float_inputs(records):
@@ -107,6 +107,29 @@ def run_J2(records, cut, salt):
         ref.I_leak(o, where=f"J2 result slot {sid}")
     o2 = _wrap("J2.stage2", lambda: jax.jit(stage2)(inputs, objs, us))
     out = _outs(o1)
+    out.update(_outs(o2))
+    return out, len(objs)
+
+
+def run_J4(records, cut, salt, findings, faults=None):
+    """eager [0,cut) (optionally with cache-warming faults) -> the eager objects are passed as jit
+    *arguments* into the rest of the program (flatten of eager objects with cold or populated caches)."""
+    jax = lib()["jax"]
+    jnp = lib()["jnp"]
+    w = World(salt=salt, invariants=("coh",), findings=findings)
+    run_records(records, w, stop=cut, faults=faults)
+    inputs = {k: jnp.asarray(v) for k, v in float_inputs(records).items()}
+    keep = needed_after(records, cut)
+    objs = {sid: s.obj for sid, s in w.slots.items() if not s.tainted and sid in keep}
+    us = {sid: s.u for sid, s in w.slots.items() if s.u is not None and sid in keep}
+
+    def stage2(inp, objs_, us_):
+        return _traced_run(records, cut, len(records), inp, objs_, us_)[0]
+
+    o2 = _wrap("J4.stage2", lambda: jax.jit(stage2)(inputs, objs, us))
+    for sid, o in objs.items():
+        ref.I_leak(o, where=f"J4 argument slot {sid}")
+    out = dict(w.outputs)
     out.update(_outs(o2))
     return out, len(objs)
 
@@ -321,6 +344,10 @@ def perturbed(mode, records, detail, seed, fnd, w0):
     if mode == "J3":
         w, nobj = run_J3(records, detail["cut"], detail["mid"], seed, fnd)
         return w.outputs, 0, nobj
+    if mode == "J4":
+        faults = {int(k): v for k, v in detail.get("faults", {}).items()}
+        out, nobj = run_J4(records, detail["cut"], seed, fnd, faults=faults)
+        return out, 0, nobj
     if mode == "FD":
         w = World(salt=seed, invariants=("coh", "imm"), findings=fnd)
         faults = {int(k): v for k, v in detail["faults"].items()}
@@ -334,7 +361,7 @@ def perturbed(mode, records, detail, seed, fnd, w0):
 
 def gen_detail(mode, records, seed, k, cfg, w0):
     r = Rng(seed, "c18", k)
-    if mode in ("J2", "J3"):
+    if mode in ("J2", "J3", "J4"):
         cuts = choose_cuts(records, r)
         if cuts is None:
             return None
@@ -349,6 +376,9 @@ def gen_detail(mode, records, seed, k, cfg, w0):
                 return None
         if mode == "J2":
             return {"cut": cut}
+        if mode == "J4":
+            faults, n = gen.fault_schedule(seed, k, records[:cut], cfg, kinds=("warm",))
+            return {"cut": cut, "faults": {str(a): b for a, b in faults.items()}}
         if mid is None:
             return None
         return {"cut": cut, "mid": mid}
@@ -408,7 +438,7 @@ def run(seed, tier, prop="C18"):
         stats.update(w0.stats)
         digests.append(w0.digest())
         for k in range(K):
-            mode = Rng(seed, "c18-mode", k).wchoice(list(MODES), [1.0, 1.5, 1.5, 2.0, 1.2])
+            mode = Rng(seed, "c18-mode", k).wchoice(list(MODES), [1.0, 1.2, 1.5, 2.0, 1.2, 1.5])
             detail = gen_detail(mode, records, seed, k, cfg, w0)
             if detail is None:
                 continue
